@@ -207,6 +207,13 @@ func odtTable(b *strings.Builder, t Tbl, cnt *counter, blk, no int) {
 			}
 			b.WriteString(`>`)
 			for p := 0; p < g.Np; p++ {
+				if p == 0 && g.Rich { // character data followed by a span
+					o.Rich = true
+					fmt.Fprintf(b, `<text:p text:style-name="Standard">%s`, TokText(cnt.next(o)))
+					fmt.Fprintf(b, `<text:span text:style-name="T1">%s</text:span></text:p>`, TokText(cnt.next(o)))
+					o.Rich = false
+					continue
+				}
 				fmt.Fprintf(b, `<text:p text:style-name="Standard">%s</text:p>`, TokText(cnt.next(o)))
 			}
 			b.WriteString(`</table:table-cell>`)
